@@ -181,7 +181,7 @@ def _poly_events(case):
                 else:
                     try:
                         ev["rects"] = [emb.back_rect(*r) for r in res]
-                        key = repr(res)
+                        key = repr([[(type(v).__name__, float(v)) for v in r] for r in res])     # (the types matter to the loader)
                         if key not in loaded_cache:
                             # the rectangles go to Netlist AS RETURNED (a tree, as floor_set_manager hands them on), not
                             # through their string form
